@@ -721,6 +721,38 @@ def generate(repo=None):
                         'the test of the exact scale-down route of `functions.%s._%s_raw(x, y, n_frac)`' % (fn, fn))
         attempt(fn + 'ExactPath', fexact)
 
+    # carrier selection of dot / matmul / prod (D70): the test in front of the python-integer branch of their raw kernels
+    for fn in ('dot', 'matmul', 'prod'):
+        def fredpy(fn=fn):
+            node = find_func(tree, fn)
+            inner = next((n for n in node.body if isinstance(n, ast.FunctionDef) and n.name == '_%s_raw' % fn), None)
+            if inner is None:
+                raise Untranslatable('_%s_raw not found' % fn)
+            a = [p.arg for p in inner.args.args]
+            c2 = dict(consts)
+            # the number of accumulated terms / of factors (k >= 1): `x.shape[-1]` guarded for 0-d operands, `a.size` / `a.shape[axis]`
+            c2['__patterns__'] = {'max(x.shape[-1] if x.ndim > 0 else 1, 1)': ('I', 'k')}
+            if fn == 'prod':
+                env = {a[0]: ('O', 'x'), a[1]: ('I', 'F'), 'a': ('O', 'x'), 'axis': C(None)}
+            else:
+                env = {a[0]: ('O', 'x'), a[1]: ('O', 'y'), a[2]: ('I', 'F')}
+            pe = PE(env, c2, funcs)
+            head, test = [], None
+            for st in inner.body:
+                if isinstance(st, ast.Assign):
+                    head.append(st)
+                    continue
+                if isinstance(st, ast.If) and any('dtype=object' in ast.unparse(c) for c in st.body):
+                    test = st.test
+                break
+            if test is None:
+                raise Untranslatable('no python-integer branch at the head of _%s_raw' % fn)
+            pe.run(head, lenient=True)
+            sig = (OPX + ' (F k : Int)') if fn == 'prod' else (OPX + ' ' + OPY + ' (F k : Int)')
+            return emit('%sNeedsPyInt' % fn, sig, pe, pe.ev(test),
+                        'the test of the python-integer branch of `functions.%s._%s_raw` for a result fraction length `F` and `k` accumulated terms / factors' % (fn, fn))
+        attempt(fn + 'NeedsPyInt', fredpy)
+
     # sizing policies of _get_sizing for two operands
     for pol in ('same', 'largest', 'smallest', 'optimal'):
         def f(pol=pol):
